@@ -200,6 +200,8 @@ def c15_check(prop, tier, seed, replay):
             if v["pkg"] == "internal/monitor" and v["name"] in ("m", "p", "a"):
                 continue   # modelled explicitly (m, pa) with their guards
             name = (v["pkg"] + "." if v["pkg"] else "") + v["name"]
+            if v["pkg"] == "internal/monitor":
+                continue   # its only other accesses are the method calls on m, guarded by m != nil (modelled as Log)
             extra.append((name, "W" if v["writes"] else "R", v))
         mon = {v["name"]: v for v in tables["vars"] if v["pkg"] == "internal/monitor"}
         drift = []
@@ -244,8 +246,12 @@ def c15_check(prop, tier, seed, replay):
             rng.shuffle(inputs)
             inputs = inputs[:260 if tier == "quick" else 1500] + random_inputs(rng, 140 if tier == "quick" else 1000, 5, 25, density=1.4)
             cs = [apply(n, e, cb) for (n, e), cb in rotate(inputs, combos, 1, rng)]
-            for c in cs:
+            # the explicitly non-deterministic greedy option must be race-free too (its results are not compared:
+            # AutogApi!C15_Applies excludes it); cyclic inputs, so that the random choice is actually reached
+            for k, c in enumerate(cs):
                 c["budgetms"] = 0
+                if k % 5 == 0:
+                    c["p1"] = "greedyrand"
             plan = [(2, 1), (8, 4), (64, 16)] if tier == "quick" else [(2, 1), (2, 16), (8, 1), (8, 4), (16, 16), (64, 4), (64, 16)]
             per = len(cs) // len(plan)
             batches = []
